@@ -12,6 +12,9 @@ MUTANTS = [
     {'name': 'gumbel-shortcut-returns-V', 'rule': 'D3.dispatch', 'file': 'bivariate/gumbel.py', 'old': "        if self.theta == 1:\n            return y\n", 'new': "        if self.theta == 1:\n            return V\n"},
     {'name': 'frank-super-swapped', 'rule': 'D3.dispatch', 'file': 'bivariate/frank.py', 'old': "            return super().percent_point(y, V)", 'new': "            return super().percent_point(V, y)"},
     {'name': 'independence-returns-V', 'rule': 'D3.dispatch', 'file': 'bivariate/independence.py', 'old': "        self.check_fit()\n        return y", 'new': "        self.check_fit()\n        return V"},
+    {'name': 'clayton-inverse-exponent-sign', 'rule': 'D4.values', 'file': 'bivariate/clayton.py', 'old': "            return np.power((a + b - 1) / b, -1 / self.theta)", 'new': "            return np.power((a + b - 1) / b, 1 / self.theta)"},
+    {'name': 'clayton-inverse-negated', 'rule': 'D4.values', 'file': 'bivariate/clayton.py', 'old': "            return np.power((a + b - 1) / b, -1 / self.theta)", 'new': "            return 1 - 2 * np.power((a + b - 1) / b, -1 / self.theta)"},
+    {'name': 'gumbel-shortcut-returns-product', 'rule': 'D4.values', 'file': 'bivariate/gumbel.py', 'old': "        if self.theta == 1:\n            return y\n", 'new': "        if self.theta == 1:\n            return y * V\n"},
 ]
 REWRITES = [
     {'name': 'item-instead-of-ravel', 'file': B, 'old': "return np.ravel(self.partial_derivative_scalar(u, _v))[0] - _y", 'new': "return self.partial_derivative_scalar(u, _v).item() - _y"},
